@@ -575,7 +575,8 @@ struct BigInt {
             SizeT32 index = 1U;
             number >>= TypeWidth();
 
-            while (number != N_Number_T{0}) {
+            // An And never needs a word this number does not have, however wide the operand is.
+            while ((number != N_Number_T{0}) && ((Operation != BigIntOperation::And) || (index <= MaxIndex()))) {
                 switch (Operation) {
                     case BigIntOperation::Add: {
                         Add(Number_T(number), index);
